@@ -487,6 +487,14 @@ def run(prog, chk):
     if memrules.hash_iter_lookahead(prog, r11) < 8:
         raise Broken("fewer than 8 HASH_ITER loops found")
 
+    r13 = chk.rule("R13-compacted-array-not-read-by-count", "an array filled only for the elements that pass a test, while a count "
+                   "advances for every element, is not subscripted by an index run against that count in the callee that "
+                   "receives both: the elements past the ones written are uninitialised (shared with C12 R13)",
+                   primary=False, floor=1)
+    from .. import fillextent
+    if fillextent.rule(prog, r13) < 1:
+        raise Broken("no call passing a conditionally filled array together with a count found in parser.c")
+
     r12 = chk.rule("R12-signed-index-lower-bound", "an index variable of signed type into a fixed-size table (character classes, "
                    "keyword tables) is non-negative by construction or tested for it: option bytes and characters above 0x7F do "
                    "not become negative indexes (shared with C03 R6)", primary=False, floor=5)
